@@ -17,7 +17,7 @@ from qsim import plan as P
 from qsim.core import VERIF_DIR, Run
 
 PROP = "C14"
-QUICK_RUNS = 1600
+QUICK_RUNS = 1200
 THOROUGH_WAVE = 800
 RULE = (
     "one case = one seeded operation history over 1-3 models (construct, reinitialise, sample, observable statistics, fit with "
@@ -128,7 +128,7 @@ def generate(seed, tier):
     return {
         "property": PROP,
         "run_seed": seed,
-        "config": {"models": models, "lib_seed": r.getrandbits(31), "fresh": r.random() < fresh_share, "hashseed": r.choice([1, 7, 12345, 2 ** 31]), "np_init": r.getrandbits(31), "randomise_first": r.random() < 0.5, "seed_gpu": r.random() < 0.3, "seed_positional": r.random() < 0.3},
+        "config": {"models": models, "lib_seed": (r.getrandbits(31) if r.random() < 0.85 else r.choice([0, 1, -1, -2, 2 ** 31 - 1, 2 ** 32 + 5, 2 ** 61 - 2, 2 ** 61 - 1, 2 ** 61, 2 ** 63 - 1])), "fresh": r.random() < fresh_share, "hashseed": r.choice([1, 7, 12345, 2 ** 31]), "np_init": r.getrandbits(31), "randomise_first": r.random() < 0.5, "seed_gpu": r.random() < 0.3, "seed_positional": r.random() < 0.3},
         "ops": ops,
         "perturb": perturb,
     }
@@ -223,6 +223,13 @@ def run_history(plan, perturbed, lib_seed, run=None):
     def obs_of(name):
         return {"Z": SigmaZ, "X": SigmaX, "Y": SigmaY}[name]() if name in "ZXY" else (NeighbourInteraction(c=1) if name == "NN" else SWAP([0]))
 
+    def global_state():
+        # process-wide numeric state a library call has no business changing
+        denormals_alive = (torch.tensor([1e-310], dtype=torch.double) * 1.0).item() != 0.0
+        return (str(torch.get_default_dtype()), torch.is_grad_enabled(), torch.get_num_threads(), denormals_alive,
+                tuple(sorted(np.geterr().items())), torch.are_deterministic_algorithms_enabled())
+
+    g0 = global_state()
     with disk:
         for j, op in enumerate(plan["ops"]):
             fire("op", j)
@@ -420,6 +427,10 @@ def run_history(plan, perturbed, lib_seed, run=None):
             if kind in READONLY and state_digest(st) != before:
                 readonly.append((j, kind, f"{kind} ({op.get('which') or op.get('obs') or ''}) changed model parameters"))
             digests.append((kind, out))
+            g1 = global_state()
+            if g1 != g0:
+                local.append((j, kind, f"the operation left process-wide numeric state changed: {g0} -> {g1} (later results in this process depend on whether it ran)"))
+                g0 = g1
         fire("op", len(plan["ops"]))
         final = [tdigest(m_.sample(0, num_samples=64)) if m_ is not None else None for m_ in models]
     return {"final_draws": final, "digests": digests, "readonly": readonly, "errors": errors, "fired": fired, "local": local}
@@ -554,7 +565,7 @@ def execute(plan):
     for (j, kind, msg) in A["readonly"]:
         run.violate("14-readonly", f"op {j}: {msg}", op=kind)
     for (j, kind, msg) in A.get("local", []):
-        run.violate("14-seed" if "different library seeds" in msg else "14-repro", f"op {j}: {msg}", op=kind)
+        run.violate("14-seed" if "different library seeds" in msg else ("14-global-state" if "process-wide" in msg else "14-repro"), f"op {j}: {msg}", op=kind)
     # different library seed -> different draws
     import torch
 
